@@ -27,14 +27,18 @@ Definition l_detach (t : tensor) : tensor := T 0 (tvl t) (tdt t) false.
 
 Definition guarded (c : cls) : bool := cls_eqb c CInterpolated || cls_eqb c CMasked || cls_eqb c CIdentity.
 (* classes whose dtype / device are keyword arguments that to() rewrites: what is not requested is kept *)
-Definition keeps_dt (c : cls) : bool := cls_eqb c CIdentity || cls_eqb c CZero.
+Definition keeps_dt (c : cls) : bool := cls_eqb c CIdentity || cls_eqb c CZero || is_perm_cls c.
 Definition nd_to (c : cls) (d : option dt) (dev : option nat) (nd : list (Z * value)) : list (Z * value) :=
-  if keeps_dt c then
+  if cls_eqb c CIdentity || cls_eqb c CZero then
     match keep_or k_dtype (dt_val d) nd, keep_or k_device (dev_val dev) nd with
     | Some vdt, Some vdev => set_key k_dtype vdt (set_key k_device vdev nd)
     | _, _ => nd
     end
+  else if is_perm_cls c then                       (* the permutation classes have a dtype keyword only *)
+    match keep_or k_dtype (dt_val d) nd with Some vdt => set_key k_dtype vdt nd | None => nd end
   else nd.
+(* classes whose to() rebuilds the operator from its untouched arguments with rewritten dtype / device keywords *)
+Definition rebuilt_kw (c : cls) : bool := cls_eqb c CZero || is_perm_cls c.
 
 Section WithDef.
 Variable defdt : dt.
@@ -95,12 +99,9 @@ Fixpoint conv_to (d : option dt) (dev : option nat) (a : arg) : arg :=
                           end
                       end :: go r
                   end) ch) dn (set_key k_output_device (dev_val dev) nd) (dflt c)
-      else if cls_eqb c CPermutation then
-        (* Permutation: the index tensors are moved, never cast; only the nominal dtype changes *)
-        AOp c ((fix go (l : list arg) : list arg := match l with [] => [] | x :: r => strip x :: go r end) ch) dn nd
-            (perm_attrs d (dflt c))
-      else if cls_eqb c CZero then
-        (* Zero: rebuilt from its sizes with the requested (or kept) dtype / device keywords *)
+      else if rebuilt_kw c then
+        (* Zero, Permutation, TransposePermutation: rebuilt from the very same arguments (sizes / index tensors, never cast)
+           with the requested (or kept) dtype / device keywords *)
         AOp c ((fix go (l : list arg) : list arg := match l with [] => [] | x :: r => strip x :: go r end) ch) dn
             (nd_to c d dev nd) (dflt c)
       else
@@ -120,7 +121,6 @@ Definition conv_type (d : dt) (o : arg) : arg :=
   match o with
   | AOp c ch dn nd at_ =>
       if keeps_dt c then AOp c (strip_list ch) dn (set_key k_dtype (VDtype d) nd) (dflt c)
-      else if cls_eqb c CTransposePermutation then AOp c (strip_list ch) dn nd (set_key k_dtype (VDtype d) at_)
       else AOp c (map (conv_type_arg d) ch) dn nd (dflt c)
   | _ => o
   end.
@@ -135,6 +135,9 @@ Definition conv (m : meth) (o : arg) : arg :=
 
 (* ---- side conditions *)
 Definition is_index (x : arg) : bool := match x with ATensor t => negb (is_float (tdt t)) | _ => false end.
+(* the arguments of the classes of [rebuilt_kw] carry no floating data: index tensors (Permutation), integer sizes (Zero),
+   none at all (TransposePermutation) *)
+Definition kw_child_ok (c : cls) (x : arg) : bool := if cls_eqb c CPermutation then is_index x else negb (is_diff x).
 (* a.to(<floating dtype>) reaches no integer / boolean tensor through an unguarded position, and every operator in the
    tree reports a floating dtype (so that the guards of the overrides and of type() take the casting branch) *)
 Fixpoint to_safe (a : arg) : bool :=
@@ -153,8 +156,7 @@ Fixpoint to_safe (a : arg) : bool :=
       else if cls_eqb c CCat then
         (fix go (l : list arg) : bool :=
            match l with [] => true | x :: r => match x with ATensor _ => true | _ => to_safe x end && go r end) ch
-      else if cls_eqb c CPermutation then forallb is_index ch     (* index tensors: its to() moves, never casts them *)
-      else if cls_eqb c CZero then forallb (fun x => negb (is_diff x)) ch     (* its arguments are the integer sizes *)
+      else if rebuilt_kw c then forallb (kw_child_ok c) ch
       else (fix go (l : list arg) : bool := match l with [] => true | x :: r => to_safe x && go r end) ch
   end.
 Definition to_safe_sub (x : arg) : bool := match x with ATensor _ => true | _ => to_safe x end.
@@ -169,9 +171,9 @@ Definition safeb (m : meth) (o : arg) : bool :=
       | AOp c ch dn _ _ =>
           forallb to_safe_sub ch &&
           (* the type() overrides of Identity / TransposePermutation do not look at tensor arguments: there are none *)
-          (if cls_eqb c CIdentity || cls_eqb c CTransposePermutation then match ch with [] => true | _ => false end else true)
-          (* ... nor does the one of Zero (its arguments are the integer sizes) *)
-          && (if cls_eqb c CZero then forallb (fun x => negb (is_diff x)) ch else true)
+          (if cls_eqb c CIdentity then match ch with [] => true | _ => false end else true)
+          (* ... nor do the ones of Zero / Permutation / TransposePermutation (integer sizes, index tensors, nothing) *)
+          && (if rebuilt_kw c then forallb (kw_child_ok c) ch else true)
       | _ => true
       end
   | _ => true
